@@ -34,7 +34,7 @@ META = {
                    'has exactly one row per simulated (and construction) year in order, and every table cell equals the series element '
                    'of that year (index year x time steps per year, or year).',
     'bounds': {t: {'(kind, L, T, K, variant)': [list(c[:4]) + [c[4]] for c in CONFIGS[t]]} for t in CONFIGS},
-    'outside': ['rounding performed by format() to the displayed precision (trusted: CPython float.__format__)', 'rich / HTML output', 'AGS / SUTRA / add-on writers (the S-DAC-GT section writer is inside)',
+    'outside': ['rounding performed by format() to the displayed precision (trusted: CPython float.__format__)', 'rich / HTML output: the rendering by the rich library, the plots, and configurations with two or more construction years (the item lists and data frames that print_outputs_rich hands to its HTML writer ARE compared with the text report: rich units)', 'AGS / SUTRA / add-on writers (the S-DAC-GT section writer is inside)',
                 'lines whose label is not in the oracle table are counted as not covered (listed in the evidence), not as held', 'lifetimes beyond the bound'],
     'assumptions': ['the unit-conversion pass before printing is the subject of C06 and is skipped here (all quantities are in their current units)'],
     'stubs': ['Outputs.open -> in-memory capture; Outputs.np -> NPShim (exact max/min); print_outputs_rich -> no-op; Outputs._convert_units -> no-op'],
@@ -464,6 +464,9 @@ def _note_found(log, fid):
 
 
 def run_unit(unit):
+    if unit.get('harness') == 'rich':
+        yield from run_rich(unit)
+        return
     kind, L, T, K, x = unit['kind'], unit['L'], unit['T'], unit['K'], unit['variant']
     cfg = params_for(kind, L, T, K, x)
     desc = {'kind': kind, 'L': L, 'T': T, 'K': K, 'variant': x}
@@ -858,8 +861,194 @@ def _decimals(s):
     return len(s.split('.')[1]) if '.' in s else 0
 
 
+
+# ---- the second writer (OutputsRich.print_outputs_rich: HTML / "improved text" report) against the text report --------------------------
+# labels whose figure the rich writer takes from another (in real runs equal) quantity than the text writer: the harness gives every quantity its own
+# solver variable, so these pairs cannot be compared here (checked concretely on the pinned tree: same printed figure) - stated, not claimed
+RICH_NOT_COMPARED = {'Interest Rate': 'text: interest_rate, rich: discountrate x 100 (synchronised by sync_interest_rate in a real run)',
+                     'Pump efficiency': 'rich prints the fraction x 100; the text line depends on the unit-conversion pass, which is skipped here',
+                     'Maximum Geothermal Heating Production': 'max over the daily series taken by two different expressions',
+                     'Maximum Peaking Boiler Heat Production': 'max over the daily series taken by two different expressions'}
+RICH_CONFIGS = {'quick': [('electricity', 2, 2, 1, {}), ('district-heating', 2, 1, 1, {}), ('heat-pump', 2, 2, 1, {}), ('cogen-topping', 2, 2, 1, {'em': 3, 'carbon': True})],
+                'thorough': [(k, L, T, K, {}) for k in c04.KINDS for (L, T, K) in ((2, 2, 1), (3, 1, 1))] + [('cogen-topping', 2, 2, 1, {'em': 3, 'carbon': True}),
+                                                                                                     ('direct-use', 2, 1, 1, {'fixed_totals': True})]}
+
+
+def _rich_lists(m, symbolic):
+    import types
+    from geophires_x import OutputsRich as OR
+    from .. import shim
+    cap = {}
+    tof = types.SimpleNamespace(Provided=False, value='')
+    hof = types.SimpleNamespace(Provided=True, value='symx.html')
+    binds = [(OR, 'Write_HTML_Output', lambda html_path, *lists: cap.__setitem__('args', lists)), (OR, 'Plot_Tables_Into_HTML', lambda *a, **k: None),
+             (OR, 'MakeDistrictHeatingPlot', lambda *a, **k: None)]
+    if symbolic:
+        binds += [(OR, 'np', shim.NP), (OR, 'pd', writer._PD), (OR, 'sum', writer._sum)]
+    with shim.shadow(*binds):
+        OR.print_outputs_rich('symx.out', tof, hof, m)
+    lists = cap['args']
+    return list(lists[:10]), {'hce': lists[12], 'ahce': lists[13], 'cashflow': lists[14]}
+
+
+def _text_labels(text, tokens=None):
+    out = {}
+    for raw in text.splitlines():
+        if ':' not in raw:
+            continue
+        label, _, rest = raw.rpartition(': ') if ': ' in raw else raw.partition(':')
+        label = label.strip().rstrip(':').strip()
+        if tokens is not None:
+            mk = core.markers_in(rest)
+            if mk:
+                out.setdefault(label, []).append(tokens[mk[0][1]][0])
+        else:
+            w = rest.split()
+            if w:
+                try:
+                    out.setdefault(label, []).append(float(w[0].replace(',', '')))
+                except ValueError:
+                    pass
+    return out
+
+
+def concrete_rich(cfg, label=None, column=None):
+    """replay: the real text writer and the real rich writer on the same float model; the figure under `label` (or the rich table column) must be the text report's."""
+    import contextlib
+    import io
+    import os
+    import shutil
+    import tempfile
+    from geophires_x import Outputs as O
+    from .. import shim
+    from . import c10
+    worst = (False, {})
+    for factor in (1.2512345, 1.3377777):
+        m = prepared(cfg).reset()
+        c10._awkward(m, factor, False)
+        d = tempfile.mkdtemp(prefix='symx_c09r_')
+        try:
+            path = os.path.join(d, 'r.out')
+            m.outputs.output_file = path
+            with contextlib.redirect_stdout(io.StringIO()), shim.shadow((O, 'print_outputs_rich', lambda *a, **k: None), (O.Outputs, '_convert_units', lambda self, model: None)):
+                m.outputs.PrintOutputs(m)
+            text = open(path).read()
+            with contextlib.redirect_stdout(io.StringIO()):
+                simple, dfs = _rich_lists(m, False)
+        finally:
+            shutil.rmtree(d, ignore_errors=True)
+        if label is not None:
+            tl = _text_labels(text).get(label, [])
+            hv = []
+            for lst in simple:
+                for it in lst:
+                    if str(it.parameter).strip() == label:
+                        try:
+                            hv.append(float(str(it.value).replace(',', '')))
+                        except ValueError:
+                            pass
+            bad = bool(tl) and bool(hv) and not any(abs(h - t) <= 0.006 + 1e-3 * abs(t) for h in hv for t in tl)
+            worst = (bad, {'label': label, 'text report': tl, 'rich report': hv})
+        else:
+            name, col = column
+            V = lambda n: _float_series(m, n)
+            arr = [float(x) for x in list(dfs[name][col])]
+            cands = []
+            for title in TABLE_TITLES[:3]:
+                spec_t = table_oracle(m, V, title)
+                if spec_t is None:
+                    continue
+                nrows, first, cols = spec_t
+                for colf in cols:
+                    try:
+                        cands.append([float(colf(r)) for r in range(nrows)])
+                    except (TypeError, ValueError, IndexError, ZeroDivisionError):
+                        pass
+            ok = any(len(cnd) == len(arr) and all((a != a and b != b) or abs(a - b) <= 1e-9 * max(1.0, abs(b)) for a, b in zip(arr, cnd)) for cnd in cands)
+            worst = (not ok, {'rich table': name, 'column': col, 'values': arr[:6]})
+        if worst[0]:
+            return worst
+    return worst
+
+
+def _float_series(m, name):
+    comp, attr = name.split('.')
+    v = getattr(getattr(m, comp), attr).value
+    return list(v) if hasattr(v, '__len__') and not isinstance(v, str) else v
+
+
+def run_rich(unit):
+    kind, L, T, K, x = unit['kind'], unit['L'], unit['T'], unit['K'], unit['variant']
+    cfg = params_for(kind, L, T, K, x)
+    desc = {'harness': 'rich-writer-vs-text-report', 'kind': kind, 'L': L, 'T': T, 'K': K, 'variant': x}
+    log = harness.UnitLog(desc)
+    prepared(cfg)
+    zv = {}
+
+    def fn():
+        m, vals, text = symbolic_report(cfg)
+        simple, dfs = _rich_lists(m, True)
+        return m, vals, text, simple, dfs
+    n = 0
+    for pr in core.explore(fn, max_paths=60, catch=(RuntimeError,)):
+        log.path(pr)
+        n += 1
+        if pr.aborted:
+            continue
+        if pr.error is not None:
+            raise pr.error
+        m, vals, text, simple, dfs = pr.value
+        c = pr.ctx
+        harness.reachable(log, c, 1500)
+        tl = _text_labels(text, c.tokens)
+        for lst in simple:
+            for it in lst:
+                lab = str(it.parameter).strip()
+                mk = core.markers_in(str(it.value))
+                if not mk or lab not in tl or lab in RICH_NOT_COMPARED:
+                    continue
+                t = c.tokens[mk[0][1]][0]
+                harness.discharge(log, c, f'rich/HTML report: "{lab}" shows the figure the text report shows under that label',
+                                  z3.Or([t == tt for tt in tl[lab]]), zv, lambda inp, lab=lab: concrete_rich(cfg, label=lab), sample=(n == 1 and lab.startswith('Average Net')))
+        V = lambda name: vals[name] if name in vals else _missing(m, name)
+        cands = []
+        for title in TABLE_TITLES[:3]:
+            spec_t = table_oracle(m, V, title)
+            if spec_t is None:
+                continue
+            nrows, first, cols = spec_t
+            for colf in cols:
+                try:
+                    col = [core.lift(colf(r)) for r in range(nrows)]
+                except (TypeError, ValueError, IndexError, KeyError):
+                    continue
+                if all(t_ is not None for t_ in col):
+                    cands.append(col)
+        for name, df in dfs.items():
+            if not isinstance(df, dict):
+                continue
+            for col, arr in df.items():
+                if col.startswith('Year') or col == 'index':
+                    continue
+                terms = [core.lift(x_) for x_ in list(arr)]
+                if any(t_ is None for t_ in terms):
+                    continue
+                same_len = [cnd for cnd in cands if len(cnd) == len(terms)]
+                prop = z3.Or([z3.And([a == b for a, b in zip(terms, cnd)]) for cnd in same_len]) if same_len else z3.BoolVal(False)
+                rec = (name, col.split('|')[0].split('(')[0].strip()) in KNOWN_RICH_COLUMNS
+                harness.discharge(log, c, f'rich/HTML report, table {name}: column "{col.split("|")[0]}" is a column of the text report\'s profile tables (same figure in every year)'
+                                  + (' [recorded]' if rec else ''), prop, zv, lambda inp, name=name, col=col: concrete_rich(cfg, column=(name, col)),
+                                  finding=('C09-rich-report-columns-differ-from-text-report' if rec else None))
+    log.d['rich_labels_not_compared'] = RICH_NOT_COMPARED
+    yield log.result()
+
+
+KNOWN_RICH_COLUMNS = set()
+
 def units(tier, seed):
-    return [{'kind': k, 'L': L, 'T': T, 'K': K, 'variant': x} for (k, L, T, K, x) in CONFIGS[tier]]
+    us = [{'kind': k, 'L': L, 'T': T, 'K': K, 'variant': x} for (k, L, T, K, x) in CONFIGS[tier]]
+    us += [{'harness': 'rich', 'kind': k, 'L': L, 'T': T, 'K': K, 'variant': x} for (k, L, T, K, x) in RICH_CONFIGS[tier]]
+    return us
 
 
 def replay(cex):
